@@ -60,7 +60,7 @@ func WriteTar(ctx context.Context, fs FS, w io.Writer) error {
 			hdr.PAXRecords = map[string]string{}
 		}
 		for k, v := range stat.Xattrs {
-			hdr.PAXRecords["SCHILY.xattr."+k] = string(v)
+			hdr.PAXRecords["SCHILY.xattr."+xattrKeywordEscaper.Replace(k)] = string(v)
 		}
 
 		if err := tw.WriteHeader(hdr); err != nil {
@@ -86,3 +86,7 @@ func WriteTar(ctx context.Context, fs FS, w io.Writer) error {
 	}
 	return tw.Close()
 }
+
+// xattrKeywordEscaper encodes an attribute name for use in a PAX keyword,
+// which cannot hold '=', the way GNU tar does (and undoes on extraction).
+var xattrKeywordEscaper = strings.NewReplacer("%", "%25", "=", "%3D")
